@@ -500,17 +500,20 @@ func runC13(p *Prog, r *Report, tier string) {
 	}
 	// genesis: threshold != 0 or panic; default 1
 	if c := p.fc(r, p.Func("cctp.InitGenesis"), "InitGenesis", nil); c != nil {
-		sets := c.calls("k.SetSignatureThreshold")
-		r.check(len(sets) == 2, "T-eq", "T-eq/InitGenesis/threshold-sites", c.pos(), "two SetSignatureThreshold sites (given / default)", fmt.Sprintf("%d sites", len(sets)))
-		for _, s := range sets {
-			arg := c.args(s)[1]
-			switch arg {
-			case "types.SignatureThreshold{Amount:1}":
-				r.ok("T-eq", "T-eq/InitGenesis/threshold-default", p.instrPos(s), "default threshold is 1")
-			case "*p2.SignatureThreshold":
-				c.requireCut("G-cut", "genesis-threshold!=0", []Atom{A("!(0 == p2.SignatureThreshold.Amount)")}, []ssa.Instruction{s})
-			default:
-				r.fail("T-eq", "T-eq/InitGenesis/threshold-value/"+arg, p.instrPos(s), "unexpected genesis threshold value "+arg)
+		flow := optionalInit(c, "SignatureThreshold", "types.SignatureThreshold{Amount:1}")
+		r.check(flow.hasDefault && flow.given != nil, "T-eq", "T-eq/InitGenesis/threshold-sites", c.pos(), "the genesis threshold stored is the given one or the default 1", "genesis threshold flow not recognised: "+flow.why)
+		if flow.hasDefault {
+			r.ok("T-eq", "T-eq/InitGenesis/threshold-default", c.pos(), "default threshold is 1")
+		}
+		if flow.given != nil {
+			c.requireCut("G-cut", "genesis-threshold!=0", []Atom{A("!(0 == p2.SignatureThreshold.Amount)")}, []ssa.Instruction{flow.given})
+		}
+		// no other value is ever stored
+		for _, s := range c.calls("k.SetSignatureThreshold") {
+			if s != flow.set {
+				if arg := c.args(s)[1]; arg != "types.SignatureThreshold{Amount:1}" {
+					r.fail("T-eq", "T-eq/InitGenesis/threshold-value/"+arg, p.instrPos(s), "unexpected genesis threshold value "+arg)
+				}
 			}
 		}
 	}
